@@ -2,7 +2,7 @@
 class model, and the CPython proxy classes that carry terms of it (DESIGN 3.3)."""
 import z3
 from . import core
-from .core import ctx, OutOfSubset, PathEnd
+from .core import define_rec, ctx, OutOfSubset, PathEnd
 
 
 class ClassModel:
@@ -77,22 +77,22 @@ class Theory:
         n = z3.Int('n')
         x = z3.Const('x', V)
         self.app = z3.RecFunction('app', VL, VL, VL)
-        z3.RecAddDefinition(self.app, [s, t], z3.If(VL.is_nil(s), t, VL.cons(VL.hd(s), self.app(VL.tl(s), t))))
+        define_rec(self.app, [s, t], z3.If(VL.is_nil(s), t, VL.cons(VL.hd(s), self.app(VL.tl(s), t))))
         self.length = z3.RecFunction('length', VL, z3.IntSort())
-        z3.RecAddDefinition(self.length, [s], z3.If(VL.is_nil(s), 0, 1 + self.length(VL.tl(s))))
+        define_rec(self.length, [s], z3.If(VL.is_nil(s), 0, 1 + self.length(VL.tl(s))))
         self.nth = z3.RecFunction('nth', VL, z3.IntSort(), V)
-        z3.RecAddDefinition(self.nth, [s, n], z3.If(VL.is_nil(s), V.VNone,
+        define_rec(self.nth, [s, n], z3.If(VL.is_nil(s), V.VNone,
                                                       z3.If(n <= 0, VL.hd(s), self.nth(VL.tl(s), n - 1))))
         self.drop = z3.RecFunction('drop', VL, z3.IntSort(), VL)
-        z3.RecAddDefinition(self.drop, [s, n], z3.If(z3.Or(VL.is_nil(s), n <= 0), s, self.drop(VL.tl(s), n - 1)))
+        define_rec(self.drop, [s, n], z3.If(z3.Or(VL.is_nil(s), n <= 0), s, self.drop(VL.tl(s), n - 1)))
         self.take = z3.RecFunction('take', VL, z3.IntSort(), VL)
-        z3.RecAddDefinition(self.take, [s, n], z3.If(z3.Or(VL.is_nil(s), n <= 0), VL.nil,
+        define_rec(self.take, [s, n], z3.If(z3.Or(VL.is_nil(s), n <= 0), VL.nil,
                                                        VL.cons(VL.hd(s), self.take(VL.tl(s), n - 1))))
         self.mem = z3.RecFunction('mem', V, VL, z3.BoolSort())
-        z3.RecAddDefinition(self.mem, [x, s], z3.If(VL.is_nil(s), False,
+        define_rec(self.mem, [x, s], z3.If(VL.is_nil(s), False,
                                                       z3.Or(self.veq(VL.hd(s), x), self.mem(x, VL.tl(s)))))
         self.rev = z3.RecFunction('rev', VL, VL)
-        z3.RecAddDefinition(self.rev, [s], z3.If(VL.is_nil(s), VL.nil,
+        define_rec(self.rev, [s], z3.If(VL.is_nil(s), VL.nil,
                                                    self.app(self.rev(VL.tl(s)), VL.cons(VL.hd(s), VL.nil))))
         self.base_lemmas = [
             z3.ForAll([s], self.length(s) >= 0, patterns=[self.length(s)]),
@@ -372,7 +372,7 @@ def as_str_term(x):
     if isinstance(x, str):
         return z3.StringVal(x)
     if isinstance(x, SV):
-        r = x.resolve()
+        r = x.resolve_builtin()
         if isinstance(r, (SStr, str)):
             return as_str_term(r)
     if z3.is_expr(x):
@@ -426,7 +426,9 @@ class SInt(Sym):
 
     def _bin(self, other, f, rev=False):
         if isinstance(other, SV):
-            other = other.resolve()
+            other = other.resolve_builtin()
+            if isinstance(other, SV):
+                return NotImplemented
         if not is_numeric(other) and not isinstance(other, (bool, SBool)):
             return NotImplemented
         a, b = (other, self) if rev else (self, other)
@@ -482,7 +484,7 @@ class SInt(Sym):
 
     def _cmp(self, o, f):
         if isinstance(o, SV):
-            o = o.resolve()
+            o = o.resolve_builtin()
         if not is_numeric(o) and not isinstance(o, (bool, SBool)):
             return NotImplemented
         _, a, b = _num2(self, o)
@@ -504,9 +506,9 @@ class SInt(Sym):
 
 def _divlike(a, b, op):
     if isinstance(a, SV):
-        a = a.resolve()
+        a = a.resolve_builtin()
     if isinstance(b, SV):
-        b = b.resolve()
+        b = b.resolve_builtin()
     if not (is_numeric(a) or isinstance(a, bool)) or not (is_numeric(b) or isinstance(b, bool)):
         return NotImplemented
     kind, ta, tb = _num2(a, b)
@@ -534,7 +536,9 @@ class SReal(Sym):
 
     def _bin(self, other, f, rev=False):
         if isinstance(other, SV):
-            other = other.resolve()
+            other = other.resolve_builtin()
+            if isinstance(other, SV):
+                return NotImplemented
         if not is_numeric(other) and not isinstance(other, (bool, SBool)):
             return NotImplemented
         a, b = (other, self) if rev else (self, other)
@@ -565,7 +569,7 @@ class SReal(Sym):
 
     def _cmp(self, o, f):
         if isinstance(o, SV):
-            o = o.resolve()
+            o = o.resolve_builtin()
         if not is_numeric(o) and not isinstance(o, (bool, SBool)):
             return NotImplemented
         return mk_bool(f(self.t, as_real_term(o)))
@@ -646,7 +650,7 @@ class SStr(Sym):
 
     def __eq__(self, o):
         if isinstance(o, SV):
-            o = o.resolve()
+            o = o.resolve_builtin()
         if isinstance(o, (SStr, str)):
             return mk_bool(self.t == as_str_term(o))
         if isinstance(o, SV):
@@ -851,10 +855,30 @@ class HRef:
 
 class SV(Sym):
     """A value of the universal sort V whose Python type may not be known statically."""
-    __slots__ = ('T', 't', 'cls')
+    __slots__ = ('T', 't', 'cls', '_inst', '_attrs', '_poss')
 
     def __init__(self, T, t, cls=None):
         self.T, self.t, self.cls = T, t, cls
+        self._inst = False          # already established on this path: value is an instance of a model class
+        self._attrs = None          # attribute groups already established on this path
+        self._poss = None           # model classes still possible on this path (narrowed by isinstance tests)
+
+    def narrow(self, names, positive):
+        """record the outcome of an isinstance-like test (keeps attribute ite-chains small)"""
+        allc = [cn for cn, cm in self.T.classes.items() if cm.fields is not None]
+        cur = self._poss if self._poss is not None else allc
+        names = set(names)
+        cur = [c for c in cur if (c in names) == positive]
+        self._poss = cur
+        if positive:
+            self._inst = True
+        if len(cur) == 1 and self._inst:
+            self.cls = cur[0]
+
+    def possible(self):
+        if self._poss is not None:
+            return self._poss
+        return [cn for cn, cm in self.T.classes.items() if cm.fields is not None]
 
     def __repr__(self):
         return 'SV<%s>(%s)' % (self.cls or '?', str(self.t)[:60])
@@ -909,11 +933,12 @@ class SV(Sym):
     def resolve_builtin(self):
         """typed proxy if the value is a builtin (None/int/bool/str/float/list/tuple); self (class possibly
         unknown) if it is an instance of a model class.  One fork per builtin tag, one for 'instance'."""
-        if self.known_class() is not None:
+        if self.known_class() is not None or self._inst:
             return self
         T, t, c = self.T, self.t, ctx()
         inst = z3.Or([T.recog['is_' + k](t) for k in T.ctor if k.startswith('C_')])
         if c.branch(inst, 'tag:instance'):
+            self._inst = True
             return self
         c.assume(z3.Not(T.recog['is_VRef'](t)))      # heap references are never symbolic (only concrete HRefs)
         for k in Theory.BUILTIN:
@@ -924,8 +949,9 @@ class SV(Sym):
     def _impl_groups(self, finder):
         """group the concrete model classes by the implementation `finder(clsname)` returns"""
         groups = {}
+        poss = set(self.possible())
         for cn, cm in self.T.classes.items():
-            if cm.fields is None:
+            if cm.fields is None or cn not in poss:
                 continue
             impl = finder(cn)
             groups.setdefault(id(impl), (impl, []))[1].append(cn)
@@ -981,8 +1007,9 @@ class SV(Sym):
         if k is None:
             # instance of unknown class: field via ite-chain over the classes that have it
             have = {}
+            poss = set(self.possible())
             for cn, cm in T.classes.items():
-                if cm.fields is None:
+                if cm.fields is None or cn not in poss:
                     continue
                 kind = None
                 for f, s in cm.fields:
@@ -998,11 +1025,20 @@ class SV(Sym):
                             kind = ('meth', id(m), m)
                 have.setdefault(kind[:2] if kind else None, []).append((cn, kind))
             c = ctx()
+            if self._attrs is None:
+                self._attrs = {}
             for key, lst in have.items():
                 names = [cn for cn, _ in lst]
                 if len(have) > 1:
-                    if not c.branch(z3.Or([T.recog['is_C_' + n](self.t) for n in names]), 'attr:' + name):
+                    done = self._attrs.get(name)
+                    if done is not None:
+                        if done != key:
+                            continue
+                    elif not c.branch(z3.Or([T.recog['is_C_' + n](self.t) for n in names]), 'attr:' + name):
+                        self.narrow(names, False)
                         continue
+                    self._attrs[name] = key
+                    self.narrow(names, True)
                 if len(names) == 1:
                     self.cls = names[0]
                 if key is None:
